@@ -57,13 +57,13 @@ impl VM {
         let mut upvalues_ptr = frame.upvalues_ptr;
         let mut upvalues_len = frame.upvalues_len;
         let mut current_frame_idx = frame_idx;
-        let mut global_mapping_id = frame.global_mapping_id;
 
         loop {
             // Check end of bytecode
             if ip >= bytecode_len {
                 self.frames.pop();
                 if self.frames.is_empty() {
+                    self.sync_loaded_globals();
                     return Ok(Value::null());
                 }
                 // Reload frame state
@@ -79,8 +79,9 @@ impl VM {
                 upvalues_ptr = frame.upvalues_ptr;
                 upvalues_len = frame.upvalues_len;
                 let new_gmap = frame.global_mapping_id;
-                if new_gmap != 0 && new_gmap != global_mapping_id {
-                    global_mapping_id = self.prepare_globals_for_function(func_ref);
+                if new_gmap != 0 && new_gmap != self.current_global_mapping_id {
+                    self.sync_loaded_globals();
+                    self.prepare_globals_for_function(func_ref);
                 }
                 continue;
             }
